@@ -276,7 +276,7 @@ func init() {
 		},
 		NBatches: func(t core.Tier) int { return n(t, 16, 64) },
 		Floors: func(t core.Tier) map[string]int {
-			return map[string]int{"evaluations": n(t, 3000, 150000), "distinct_nontrivial": n(t, 2500, 100000), "ref_agreed": n(t, 2500, 100000), "long_cases": 22, "exit_matrix_cases": 800}
+			return map[string]int{"evaluations": n(t, 9000, 150000), "distinct_nontrivial": n(t, 7500, 100000), "ref_agreed": n(t, 7500, 100000), "long_cases": 22, "exit_matrix_cases": 800}
 		},
 		Run: func(c *core.Ctx) {
 			if err := diffrun.Prepare(c.WorkDir()); err != nil {
@@ -305,7 +305,7 @@ func init() {
 				}
 			}
 			rng := c.Rand("cases")
-			total := n(c.Tier, 4000, 200000) / c.NBatches
+			total := n(c.Tier, 12000, 200000) / c.NBatches
 			for i := 0; i < total; i++ {
 				c01RunCase(c, c11Generate(rng.Int63()), "C11")
 			}
